@@ -35,10 +35,11 @@ ILIS = ['i1', 'i2', 'i3', 'i4', 'i5', 'i6', '', '', 'in']
 TYPES = ('hypernym', 'hypernym', 'instance_hypernym', 'hyponym', 'similar', 'zz_rel')
 
 
-def _lex(draw, lid, n, nrel, lex_id=None, version='1'):
+def _lex(draw, lid, n, nrel, lex_id=None, version='1', prefer=()):
     ss = []
+    pool = ILIS + [i for i in prefer if i and i != 'in'] * 2
     for i in range(n):
-        ss.append({'id': f'{lid}-s{i}', 'ili': draw(st.sampled_from(ILIS)), 'partOfSpeech': 'n',
+        ss.append({'id': f'{lid}-s{i}', 'ili': draw(st.sampled_from(pool)), 'partOfSpeech': 'n',
                    'meta': None})
     ids = [s['id'] for s in ss]
     for s in ss:
@@ -56,10 +57,11 @@ def _lex(draw, lid, n, nrel, lex_id=None, version='1'):
 
 @st.composite
 def _cases(draw):
-    L = _lex(draw, 'L', draw(st.integers(1, 4)), draw(st.integers(0, 1)))
     # the two expand lexicons are two versions of one id: dependencies are id:version pairs
     E1 = _lex(draw, 'E1', draw(st.integers(2, 4)), 3, lex_id='E', version='1')
-    E2 = _lex(draw, 'E2', draw(st.integers(1, 3)), 2, lex_id='E', version='2')
+    shared = [x['ili'] for x in E1['synsets']]
+    E2 = _lex(draw, 'E2', draw(st.integers(1, 3)), 2, lex_id='E', version='2', prefer=shared)
+    L = _lex(draw, 'L', draw(st.integers(1, 4)), draw(st.integers(0, 1)), prefer=shared)
     reqs = []
     if draw(st.booleans()):
         reqs.append({'id': 'E', 'version': '1'})
@@ -270,7 +272,7 @@ def _sample(case):
 
 SUBS = [
     Sub('expand', oracle, _classify, strategy=lambda tier: _cases(),
-        budget={'quick': 150, 'thorough': 5000}, sample=_sample, case_timeout=120,
+        budget={'quick': 500, 'thorough': 6000}, sample=_sample, case_timeout=120,
         fingerprint=lambda c: fingerprint(c),
         require_tags=('placeholder', 'many-to-many', 'dropped-target-without-ili',
                       'dependency-missing', 'mode:unrestricted')),
